@@ -24,6 +24,26 @@ func (c *Ctx) runSemFamily(module, cfg string, o *SemOpts, timeout time.Duration
 	return st
 }
 
+// genSlice: one slice of FamGen (seeded random well-behaved programs over scopes, loops, calls, closures, shared arrays and
+// objects; the specification prescribes every output line) replayed with the full comparison, and a sample validated as traces.
+func (c *Ctx) genSlice(slice int, o *SemOpts) {
+	cfg := "FamGen_quick.cfg"
+	if c.Tier == "thorough" {
+		cfg = "FamGen_thorough.cfg"
+	}
+	out := filepath.Join(c.Work, fmt.Sprintf("FamGen_slice%d.ndjson", slice))
+	res := c.runTLC(TLCJob{Module: "FamGen", Cfg: cfg, OutFile: out, Timeout: 40 * time.Minute, Consts: map[string]string{"Slice": strconv.Itoa(slice)}})
+	if res.Err != "" {
+		return
+	}
+	st := c.replaySemFile(out, o, 199)
+	c.recordSem(fmt.Sprintf("FamGen/slice%d", slice), st)
+	keep := c.lastFile
+	c.traceValidate("gen", out, 8, 60)
+	c.lastFile = keep
+	c.cov("random_programs", "FamGen slice "+strconv.Itoa(slice)+": seeded random well-behaved programs (numbers kept small, indexes reduced modulo the length, divisors positive) over three numbers, three arrays (two aliased), two aliased objects, a pure, a summing and a parameter-writing function, two counter closures; nested blocks with shadowing locals, for / while with break and continue, local functions closing over what is in scope; every output line is prescribed")
+}
+
 func semAssumptions(c *Ctx) {
 	c.Ev.Assumptions = []string{
 		"TLC and the Host override (JVM IEEE-754 arithmetic, BigDecimal, Normalizer) are correct",
@@ -42,6 +62,7 @@ func checkC05(c *Ctx) {
 	if c.runSemFamily("FamControl", cfg, o, 40*time.Minute) != nil {
 		c.traceValidate("control", c.lastFile, 3, 1200)
 	}
+	c.genSlice(5, o)
 	c.cov("exhaustive", true)
 	c.cov("rule", "every control skeleton of FamControl up to the nesting depth of the cfg (if/if-else over conditions of every truthiness kind, while, the 8 for shapes, blocks, break, continue, stray signals); one TLC initial state per program, each run to its terminal state by the abstract machine and replayed; non-trivial = prints something or fails")
 	semAssumptions(c)
@@ -74,6 +95,7 @@ func checkC14(c *Ctx) {
 	if c.runSemFamily("FamOrder", "FamOrder_quick.cfg", o, 30*time.Minute) != nil {
 		c.traceValidate("order", c.lastFile, 1, 1500)
 	}
+	c.genSlice(14, o)
 	c.cov("exhaustive", true)
 	c.cov("rule", "FamOrder: side-effecting probes P(tag, v) in every operand position of every operator, call, array/object literal, index, property and store form (depth 1 and 2), assignments used as expressions, and a falsy and a truthy representative of every value kind (literal and computed) under if / ! / or / and / while / for; non-trivial = at least one probe tag printed")
 	semAssumptions(c)
@@ -93,6 +115,7 @@ func checkC03(c *Ctx) {
 	if c.runSemFamily("FamScope", cfg, o, 60*time.Minute) != nil {
 		c.traceValidate("scope", c.lastFile, 7, 1500)
 	}
+	c.genSlice(3, o)
 	c.cov("exhaustive", true)
 	c.cov("rule", "FamScope: every history of total size Budget (declare / declare without initialiser / assign / read over the colliding names a and b, nested blocks, one-iteration for (declaring a colliding name) and while, a function declaration with such a body, calls) that is inside the property's domain, plus NRandom seeded random longer histories; each site stores its own line number, each read prints; non-trivial = prints or fails")
 	semAssumptions(c)
@@ -112,6 +135,7 @@ func checkC04(c *Ctx) {
 	if c.runSemFamily("FamCalls", cfg, o, 60*time.Minute) != nil {
 		c.traceValidate("calls", c.lastFile, 2, 1500)
 	}
+	c.genSlice(4, o)
 	c.cov("exhaustive", true)
 	c.cov("rule", "FamCalls: return (with value / bare / absent) at every nesting of if-then, if-else, block, while and for (hit in the first or a later iteration) up to CtxDepth; recursion (factorial with per-activation locals, fibonacci, mutual even/odd, Ackermann re-entering its own call site); every interleaving of <= HistLen calls to the two sibling closures of two counter instances; callee of every kind x 0..3 arguments; positional binding over all permutations of distinct arguments; functions stored in variables, arrays, objects and returned")
 	semAssumptions(c)
@@ -151,6 +175,7 @@ func checkC11(c *Ctx) {
 	if c.runSemFamily("FamArrays", cfg, o, 60*time.Minute) != nil {
 		c.traceValidate("arrays", c.lastFile, 4, 1200)
 	}
+	c.genSlice(11, o)
 	c.cov("exhaustive", true)
 	c.cov("rule", "FamArrays: every history of <= HistLen well-indexed array operations on two variables with shared ancestry (new, alias, nest, write first/last, len in arithmetic, push 1/2 values into either variable, remove first/last into either variable, write through a parameter, read), each optionally followed by one bad-index operation (out of range, negative, fractional, string, nil, boolean, huge, array as index, non-array targets), plus NRandom seeded random histories of RandLen operations; both variables are printed after every step")
 	semAssumptions(c)
@@ -170,6 +195,7 @@ func checkC12(c *Ctx) {
 	if c.runSemFamily("FamObjects", cfg, o, 60*time.Minute) != nil {
 		c.traceValidate("objects", c.lastFile, 4, 1500) // listing orders are resolved by the recorded run
 	}
+	c.genSlice(12, o)
 	c.cov("exhaustive", true)
 	c.cov("rule", "FamObjects: every history of <= HistLen object operations on two variables (literals with 0..3 keys in several orders, alias, write of new and existing keys, delete of present and absent keys, read of present and absent properties, nesting objects and arrays, write through a parameter), each optionally followed by one misuse (non-string key, `.` on number/array/string/nil, listing a non-object, arity), plus NRandom seeded random histories; after every step both objects are printed and keys/values are listed (keys twice): any listing order is accepted but it must be stable and keys and values must agree")
 	semAssumptions(c)
